@@ -6,10 +6,10 @@ from contracts import c09_edits
 from vlib.common import PROVED, REFUTED, UNKNOWN
 
 # obligations that are refuted on the unchanged tree inside the region of a recorded finding (each has a sibling obligation that is
-# PROVED under the complementary precondition, which is what makes the region exact)
+# PROVED under the complementary precondition, which is what makes the region exact).  The two other findings of this module
+# (partial removal unguarded, stale path of further row groups of a renamed file) were repaired in /repo (7ff1610, 75dfd7f):
+# `fixed-*` records suppress nothing, their obligations must be PROVED
 KNOWN = [
-    (c09_edits.FID_PARTIAL, re.compile(r"^remove\.no_kept_file_deleted\[any layout\]$")),
-    (c09_edits.FID_MULTIRG, re.compile(r"^rename\.metadata_follows\[any files\]$")),
     (c09_edits.FID_COLLIDE, re.compile(r"^rename\..*\[any numbering\]$")),
 ]
 FUNC = [("row_groups_map.", "api.row_groups_map"), ("remove", "api.ParquetFile.remove_row_groups"), ("overwrite", "writer.overwrite"),
